@@ -161,8 +161,9 @@ func (x *Exec) ioNative(name string, fn *ssa.Function, args []Value) (Value, boo
 		return Iface{}, true
 	case "(*os/exec.Cmd).StdinPipe":
 		f := x.newFile("stdinpipe", nil)
-		wc := x.prog.ImportedPackage("io").Type("WriteCloser").Type()
-		_ = wc
+		if x.pipeWriteFails {
+			x.fileOf(f).failAt = 1
+		}
 		return Tuple{Iface{t: types.NewPointer(x.prog.ImportedPackage("os").Type("File").Type()), v: f}, Iface{}}, true
 	case "(*os/exec.Cmd).StdoutPipe":
 		f := x.newFile("stdoutpipe", x.pipeOutput)
@@ -209,6 +210,9 @@ func (x *Exec) ioIntrinsic(short string, fn *ssa.Function, args []Value) (Value,
 			s += e + ";"
 		}
 		return strOf(s), true
+	case "verifPipeWriteFails":
+		x.pipeWriteFails = args[0].(*Term).c != 0
+		return nil, true
 	case "verifPipeOutput":
 		x.pipeOutput = x.sliceBytes(args[0].(SliceV))
 		return nil, true
